@@ -119,7 +119,19 @@ func init() {
 		if vl >= 0 {
 			vn = c.VertexNeighbors(vl)
 		}
-		return []string{ids(en[:]), ids(vn), ids(c.AllNeighbors(al))}
+		// the results are HELD while the same methods are called for other cells (a returned slice must not alias
+		// storage that a later call reuses: seeded change C01_5)
+		an := c.AllNeighbors(al)
+		other := c.NextWrap()
+		if other.IsValid() {
+			_ = other.AllNeighbors(other.Level())
+			_ = other.EdgeNeighbors()
+			if other.Level() > 0 {
+				_ = other.VertexNeighbors(other.Level() - 1)
+			}
+		}
+		_ = s2.CellIDFromFace((c.Face() + 3) % 6).AllNeighbors(2)
+		return []string{ids(en[:]), ids(vn), ids(an)}
 	}
 	replayers["cidpt"] = func(a []string) []string {
 		p := s2.Point{Vector: r3.Vector{X: pF(a[0]), Y: pF(a[1]), Z: pF(a[2])}}
